@@ -34,6 +34,10 @@ def emit_number(v):
         return 'true' if v else 'false'
     if isinstance(v, int):
         return str(v)
+    if v in (float('inf'), float('-inf')):
+        # a JSON number too large for a double (the grammar has no bound);
+        # "Infinity" is not JSON
+        return '1e999' if v > 0 else '-1e999'
     return float.__repr__(v)
 
 
